@@ -189,16 +189,24 @@ func checkC18(c *core.Ctx) {
 	} else {
 		in := sbInterp(fn)
 		key := "gopacket.(*serializeBuffer).Clear"
-		if len(in.Paths) != 1 || len(in.Paths[0].Unknown) > 0 || in.Paths[0].Panics {
-			r1.Violate(key+"/modelled", p.Pos(fn.Pos()), "Clear is not a single modelled path", nil)
-		} else {
-			pt := in.Paths[0]
+		if len(in.Paths) == 0 {
+			r1.Violate(key+"/modelled", p.Pos(fn.Pos()), "Clear has no modelled path", nil)
+		}
+		for pi, pt := range in.Paths {
+			sfx := ""
+			if pi > 0 {
+				sfx = fmt.Sprintf("#%d", pi+1)
+			}
+			if len(pt.Unknown) > 0 || pt.Panics {
+				r1.Violate(key+"/modelled"+sfx, p.Pos(fn.Pos()), "a path through Clear is not modelled", nil)
+				continue
+			}
 			start, ok := pt.Cells["start"].(lin.Lin)
-			r1.Check(ok && start.Eq(lin.Sym("prepended")), key+"/start", p.Pos(fn.Pos()), "start := prepended", "Clear does not reset start to the remembered prepend capacity")
+			r1.Check(ok && start.Eq(lin.Sym("prepended")), key+"/start"+sfx, p.Pos(fn.Pos()), "start := prepended", "on some path Clear does not reset start to the remembered prepend capacity")
 			d, ok2 := pt.Cells["data"].(lin.SliceD)
-			r1.Check(ok && ok2 && d.Base == "old" && d.Off.Eq(lin.K(0)) && d.Len.Eq(start), key+"/data", p.Pos(fn.Pos()), "data := data[:start] (empty contents)", "after Clear the buffer still has contents (data is not truncated to start)")
+			r1.Check(ok && ok2 && d.Base == "old" && d.Off.Eq(lin.K(0)) && d.Len.Eq(start), key+"/data"+sfx, p.Pos(fn.Pos()), "data := data[:start] (empty contents)", "on some path the buffer still has contents after Clear (data is not truncated to start)")
 			ly, ok3 := pt.Cells["layers"].(lin.SliceD)
-			r1.Check(ok3 && ly.Len.Eq(lin.K(0)), key+"/layers", p.Pos(fn.Pos()), "layers := layers[:0]", "Clear does not empty the list of recorded layers")
+			r1.Check(ok3 && ly.Len.Eq(lin.K(0)), key+"/layers"+sfx, p.Pos(fn.Pos()), "layers := layers[:0]", "on some path Clear returns without emptying the list of recorded layers")
 		}
 	}
 	// Bytes / Layers / PushLayer
@@ -277,6 +285,8 @@ func checkSerializeLayers(c *core.Ctx, r *core.Rule) {
 		onBuf := len(fn.Params) > 0 && clear.Call.Value == ssa.Value(fn.Params[0])
 		again := core.ForwardSearch(fn, clear, func(i ssa.Instruction) bool { return i == ssa.Instruction(clear) }, nil) != nil
 		r.Check(esc == nil && onBuf && !again, key+"clear-first", p.InstrPos(clear), "Clear() once, before the first SerializeTo", "Clear does not precede the first SerializeTo exactly once on the given buffer")
+		early := core.ForwardSearch(fn, nil, func(i ssa.Instruction) bool { _, isRet := i.(*ssa.Return); return isRet }, func(i ssa.Instruction) bool { return i == ssa.Instruction(clear) })
+		r.Check(early == nil, key+"clear-always", p.InstrPos(clear), "every return is preceded by Clear()", "a return is reachable without Clear(): for that call (an empty layer list) the buffer keeps the bytes and recorded layers of the previous use instead of the empty result")
 	}
 	// the layer serialized is layers[i] with i a phi: init len(layers)-1, step -1, loop cond i >= 0
 	okIdx := false
